@@ -9,6 +9,7 @@ All statements are for every rank and every extent (no bound).
 import TetlProofs.C19.Lemmas
 import TetlProofs.C19.Mapping
 import TetlProofs.C19.Extents
+import TetlProofs.C19.Stride
 namespace Tetl.C19.Props
 open Tetl Tetl.C19 Tetl.C19.Spec Tetl.C19.Lemmas
 
@@ -46,14 +47,12 @@ theorem stride_in_span (e s i : List Nat) (h : InRange e i) : offStride s i < re
   offStride_lt_req e s i h
 example : InRange [2, 3] [1, 2] ∧ offStride [1, 3] [1, 2] = 7 ∧ reqSpanStride [2, 3] [1, 3] = 8 := by decide
 
-/-- explicit strides, dimensions listed by decreasing stride, each stride at least the span of the faster
-    dimensions (`Desc`, padding allowed): distinct in-range multi-indices map to distinct offsets.
-    PARTIAL: the standard allows the dimensions in any order (a permutation); the transport of this statement along
-    the permutation is not proved. -/
-theorem stride_injective_partial (l : List (Nat × Nat)) (i j : List Nat) (hd : Desc l) (hi : InRangeP l i)
-    (hj : InRangeP l j) (h : offP l i = offP l j) : i = j := offP_inj l i j hd hi hj h
-example : Desc [(4, 12), (2, 5), (3, 1)] ∧ InRangeP [(4, 12), (2, 5), (3, 1)] [3, 1, 2] := by
-  refine ⟨by decide, ?_⟩; simp [InRangeP]
+/-- explicit strides satisfying the standard's uniqueness precondition (`StrideOK`: `perm` lists the dimensions by
+    decreasing stride and every stride is at least the span of the faster dimensions — padded and permuted strides):
+    distinct in-range multi-indices map to distinct offsets -/
+theorem stride_injective (e s perm i j : List Nat) (hok : StrideOK e s perm = true) (hi : InRange e i) (hj : InRange e j)
+    (h : offStride s i = offStride s j) : i = j := offStride_inj e s perm i j hok hi hj h
+example : StrideOK [2, 3, 4] [5, 1, 12] [2, 0, 1] = true ∧ InRange [2, 3, 4] [1, 2, 3] := by decide
 
 /-! ## the model: extents products, strides, required_span_size, operator() -/
 
@@ -152,6 +151,24 @@ theorem ctor_mapping_closed_form (l : Lay) (t : IdxT) (hv : IdxT.Valid t) (pat :
   obtain ⟨e, h1, h2⟩ := ofVals_extIs t hv pat vals hc hm all
   exact ⟨e, h1, mapIdx_eq l t hv e vals h2 hf idx hr, reqSpan_eq l t hv e vals h2 hf, offSpec_lt l vals idx hr⟩
 example : Consistent [some 2, none, some 4] [2, 3, 4] ∧ Fits ⟨8, true⟩ [2, 3, 4] ∧ InRange [2, 3, 4] [1, 2, 3] := by decide
+
+/-! ## layout_transpose -/
+
+/-- `layout_transpose<L>::mapping::operator()(i, j)` (= nested mapping at `(j, i)`, converted to `size_type`) never
+    fails and is the closed form of the *other* contiguous layout over the extents `[e0, e1]` of the view; hence it is
+    in-span and injective by `left_/right_in_span`, `left_/right_injective` -/
+theorem transpose_eq (t : IdxT) (hv : IdxT.Valid t) (m : TMap) (e0 e1 : Nat) (he : ExtIs t m.nested [e1, e0])
+    (hf : Fits t [e1, e0]) (i j : Nat) (hi : i < e0) (hj : j < e1) :
+    m.mapIdx t (i : Int) (j : Int) = .ok ((offSpec (flipLay m.lay) [e0, e1] [i, j] : Nat) : Int) :=
+  tmap_eq t hv m e0 e1 he hf i j hi hj
+example : Fits ⟨8, false⟩ [3, 2] ∧ (1 : Nat) < 2 ∧ (2 : Nat) < 3 := by decide
+
+/-- `layout_transpose<L>::mapping::stride(r)` (after the fix) is the stride of the other layout over the view extents -/
+theorem transpose_stride_eq (t : IdxT) (hv : IdxT.Valid t) (m : TMap) (e0 e1 : Nat) (he : ExtIs t m.nested [e1, e0])
+    (hf : Fits t [e1, e0]) (r : Nat) (hr : r < 2) :
+    m.stride t r = .ok ((strideSpec (flipLay m.lay) [e0, e1] r : Nat) : Int) :=
+  tmap_stride_eq t hv m e0 e1 he hf r hr
+example : Fits ⟨16, true⟩ [4, 3] := by decide
 
 /-! ## span::first / last / subspan (`SpanWF`: inside the base range, static extent = size) -/
 
